@@ -52,6 +52,27 @@ def single_path(I: Interp, fn, what: str):
     return oks[0]
 
 
+def multi_path(I: Interp, fn, what: str, max_paths=64):
+    """like single_path, but the code may take several routes depending on data: all successful paths are returned"""
+    from .bitabs import PartialRaise
+    res = explore(fn, max_paths=max_paths)
+    for st, (k, v) in res:
+        if k == "abort" and isinstance(v, PartialRaise):
+            raise Misbehaves(f"{what}: {v}")
+        if k == "raise":
+            raise Misbehaves(f"{what}: raises {v} on path {st.labels}")
+    bad = [(st, v) for st, (k, v) in res if k != "ok"]
+    if bad:
+        detail = "; ".join(f"{k}:{v}" for st, (k, v) in res if k != "ok")[:300]
+        raise AnalysisError(f"{what}: {len(bad)} path(s) not analysable ({detail})")
+    return [(st, v) for st, (k, v) in res if k == "ok"]
+
+
+def path_name(st):
+    taken = [f"{l}={'yes' if d else 'no'}" for l, d in zip(st.labels, st.decisions)]
+    return (" on path [" + ", ".join(taken)[:160] + "]") if taken else ""
+
+
 def atom_index(I: Interp, b, name: str):
     """if the form is exactly one atom (name, i) return i"""
     b = I.simp(b)
@@ -267,57 +288,81 @@ def check_vbptc(ctx, name: str):
             I.st = st
             return I.call(enc, [I.wire("m", S["info"])], dict(kw))
 
-        st, out = single_path(I, run_enc, f"{q}.encode")
-        ok_w = isinstance(out, ABits) and len(out.items) == n and not any(isinstance(b, OB) for b in out.items)
-        ctx.ob("wiring/encode-width", key, ok_w, f"encode returns {out!r}, want {n} non-opaque bits", enc.loc)
-        if not ok_w:
+        paths = multi_path(I, run_enc, f"{q}.encode")
+        fails = {"wiring/encode-width": [], "wiring/encode-systematic": [], "wiring/rows-codewords": [], "wiring/column-parity": []}
+        for st, out in paths:
+            I.st = st
+            pn = path_name(st)
+            ok_w = isinstance(out, ABits) and len(out.items) == n and not any(isinstance(b, OB) for b in out.items)
+            if not ok_w:
+                fails["wiring/encode-width"].append(f"encode returns {out!r}, want {n} non-opaque bits{pn}")
+                continue
+            tx = out.items
+            bad = [(i, T[k][0]) for i, k in enumerate(info) if atom_index(I, tx[T[k][0]], "m") != i]
+            if bad:
+                fails["wiring/encode-systematic"].append(f"(message bit, tx position) not carrying that bit: {bad[:6]}{pn}")
+            cell = {(r, c): tx[S["il"](r, c)] for r in range(R) for c in range(C)}
+            rows_bad = [r for r in range(DR) if not syndrome_zero(I, H, [cell[(r, c)] for c in range(C)])]
+            if rows_bad:
+                fails["wiring/rows-codewords"].append(f"data rows that are not {S['ham']} codewords: {rows_bad}{pn}")
+            want = 0 if vname == "even" else 1
+            cols_bad = []
+            for c in range(C):
+                acc = F(0, want)
+                for r in range(R):
+                    acc = acc ^ cell[(r, c)]
+                acc = I.simp(acc)
+                if not (isinstance(acc, F) and acc.is_const and acc.c == 0):
+                    cols_bad.append(c)
+            if cols_bad:
+                fails["wiring/column-parity"].append(f"columns violating {vname} parity: {cols_bad}{pn}")
+        for rule_, fl in fails.items():
+            ctx.ob(rule_, key, not fl, "; ".join(fl[:3]) or (f"{len(paths)} encoder path(s)" if len(paths) > 1 else ""), enc.loc)
+        if fails["wiring/encode-width"]:
             continue
-        tx = out.items
-        bad = [(i, T[k][0]) for i, k in enumerate(info) if atom_index(I, tx[T[k][0]], "m") != i]
-        ctx.ob("wiring/encode-systematic", key, not bad, f"(message bit, tx position) not carrying that bit: {bad[:6]}", enc.loc)
-        cell = {(r, c): tx[S["il"](r, c)] for r in range(R) for c in range(C)}
-        rows_bad = [r for r in range(DR) if not syndrome_zero(I, H, [cell[(r, c)] for c in range(C)])]
-        ctx.ob("wiring/rows-codewords", key, not rows_bad, f"data rows that are not {S['ham']} codewords: {rows_bad}", enc.loc)
-        want = 0 if vname == "even" else 1
-        cols_bad = []
-        for c in range(C):
-            acc = F(0, want)
-            for r in range(R):
-                acc = acc ^ cell[(r, c)]
-            acc = I.simp(acc)
-            if not (isinstance(acc, F) and acc.is_const and acc.c == 0):
-                cols_bad.append(c)
-        ctx.ob("wiring/column-parity", key, not cols_bad, f"columns violating {vname} parity: {cols_bad}", enc.loc)
         # checksum cells: a consistent bit order of ONE uninterpreted checksum value of the message
         if S["cs_cells"]:
             def run_cs(st2):
                 I.st = st2
                 cw = I.call(enc, [I.wire("m", S["info"])], {})
                 return I.call(csf, [cw], {})
-            st2, csbits = single_path(I, run_cs, f"{q}.{S['cs_fn']}(encode(m))")
             w = len(S["cs_cells"])
-            names = []
-            for b in csbits.items if isinstance(csbits, ABits) else []:
-                b = I.simp(b)
-                nm = None
-                if isinstance(b, F) and b.c == 0 and len(b.atoms()) == 1:
-                    nm = I.atoms.names[b.atoms()[0]]
-                names.append(nm)
-            okc = len(names) == w and all(isinstance(x, tuple) and x[0] == "fn" for x in names) and len({x[1] for x in names}) == 1
+            cs_fail = []
             order = None
-            if okc:
-                idx = [x[2] for x in names]
-                if idx == list(range(w - 1, -1, -1)):
-                    order = "msb-first"
-                elif idx == list(range(w)):
-                    order = "lsb-first"
-            ctx.ob("vbptc/checksum-order", key, okc and order == S["cs_order"],
-                   f"extractor({S['cs_fn']}) applied to encode(m) yields value bits {[x[2] if isinstance(x, tuple) else x for x in names]} "
-                   f"of the checksum ({order}); the library's consumers expect {S['cs_order']}", enc.loc)
-            # which function of which input is the checksum
-            if okc:
-                fkey = names[0][1]
-                ctx.sample({"code": name, "checksum_fn": str(fkey[0])[:40], "order": order})
+            for st2, csbits in multi_path(I, run_cs, f"{q}.{S['cs_fn']}(encode(m))"):
+                I.st = st2
+                names = []
+                for b in csbits.items if isinstance(csbits, ABits) else []:
+                    b0 = b
+                    b = I.simp(b)
+                    nm = None
+                    if isinstance(b, F) and b.c == 0 and len(b.atoms()) == 1:
+                        nm = I.atoms.names[b.atoms()[0]]
+                    elif isinstance(b, F) and b.is_const:
+                        # a checksum bit that this path has fixed (the encoder branched on it): it must read back as that value
+                        nm = ("const", b.c)
+                    names.append(nm)
+                fn_names = [x for x in names if isinstance(x, tuple) and x[0] == "fn"]
+                okc = len(names) == w and all(isinstance(x, tuple) and x[0] in ("fn", "const") for x in names) and len({x[1] for x in fn_names}) <= 1
+                if okc and fn_names:
+                    fkey = fn_names[0][1]
+                    # every position must carry the value bit the order demands: symbolic atom j, or the constant this path gave bit j
+                    idxs = list(range(w - 1, -1, -1)) if S["cs_order"] == "msb-first" else list(range(w))
+                    for pos_, j in enumerate(idxs):
+                        x = names[pos_]
+                        want_form = I.simp(I.atom_form(("fn", fkey, j)))
+                        got_form = I.simp(csbits.items[pos_])
+                        if got_form != want_form:
+                            okc = False
+                    order = S["cs_order"] if okc else order
+                elif okc and not fn_names:
+                    okc = False   # no bit of the checksum function arrives at all
+                if not okc:
+                    cs_fail.append(f"extractor({S['cs_fn']}) applied to encode(m) yields {[x[2] if isinstance(x, tuple) and x[0] == 'fn' else x for x in names]}, "
+                                   f"not the {w} checksum value bits {S['cs_order']}{path_name(st2)}")
+            ctx.ob("vbptc/checksum-order", key, not cs_fail, "; ".join(cs_fail[:2]) or f"value bits read back {S['cs_order']}", enc.loc)
+            if not cs_fail:
+                ctx.sample({"code": name, "order": order})
         # extraction
         I2 = Interp(repo)
 
@@ -347,10 +392,14 @@ def check_vbptc(ctx, name: str):
             outs.append(I3.call(enc, [full], dict(kw)))
             return outs
 
-        st4, outs = single_path(I3, run_forms, f"{q}: three input forms")
-        same = all(isinstance(o, ABits) and I3.simp_bits(o.items) == I3.simp_bits(outs[0].items) for o in outs[1:])
-        ctx.ob("wiring/input-forms", key, same and len(outs) == len(S["forms"]),
-               f"encode of message / message+checksum / de-interleaved matrix give {'the same' if same else 'different'} bits ({len(outs)} forms)", enc.loc)
+        same, nforms = True, 0
+        with ctx.guard(f"{q}: three input forms"):
+            for st4, outs in multi_path(I3, run_forms, f"{q}: three input forms", max_paths=256):
+                I3.st = st4
+                nforms = len(outs)
+                same = same and all(isinstance(o, ABits) and I3.simp_bits(o.items) == I3.simp_bits(outs[0].items) for o in outs[1:])
+            ctx.ob("wiring/input-forms", key, same and nforms == len(S["forms"]),
+                   f"encode of message / message+checksum / de-interleaved matrix give {'the same' if same else 'different'} bits ({nforms} forms)", enc.loc)
     # deinterleave_all_bits
     I5 = Interp(repo)
 
